@@ -536,4 +536,4 @@ def check(ctx):
     r4_debug_closure(ctx)
 
 
-CLAUSE += "; the Set-Cookie values are the processor's output, never edited after process_outgoing"
+CLAUSE += " Also: the Set-Cookie values are the processor's output, never edited after process_outgoing."
